@@ -4,7 +4,8 @@ Decided: the element kind of the source data comes from its dimension name on ev
 the kind tables (remap_to -> destination coordinates in both coordinate systems, remap_to -> destination dimension, source kind -> tree) agree;
 the gathered indices come from a query of a tree built over the SOURCE grid's elements of the data's kind at the DESTINATION coordinates, requested with reconstruct=True;
 the gather indexes the last data axis; IDW weights are non-negative, divided by their own sum along the neighbour axis, and the result is the weighted sum along that axis;
-the result's last dimension is the destination's and it is attached to the destination grid."""
+the result's last dimension is the destination's and it is attached to the destination grid.
+every return of the four accessor methods is the remap implementation's result (an identity shortcut only for the very same Grid object, not for grids that compare equal); inverse-distance results keep their float dtype in the wrappers too."""
 
 import ast
 
